@@ -273,7 +273,7 @@ type SGen struct {
 	Nasty bool // descriptions from nastyDescs
 }
 
-var sNames = []string{"A", "B", "Query", "Mutation", "type", "input", "enum", "on", "implements", "extend", "schema", "repeatable", "FIELD", "OBJECT", "query", "_x", "Node", "id", "interface", "union", "scalar", "directive"}
+var sNames = []string{"A", "B", "Query", "Mutation", "type", "input", "enum", "on", "implements", "extend", "schema", "repeatable", "FIELD", "OBJECT", "query", "_x", "Node", "id", "interface", "union", "scalar", "directive", "deprecated", "include", "oneOf", "specifiedBy"}
 
 func (g *SGen) name() string { return sNames[g.R.Intn(len(sNames))] }
 
